@@ -309,14 +309,9 @@ Section Loop.
 Variables (X G : Type).
 Variable learn : list (X * bool) -> G.
 Variable score : G -> X -> Z.
-Variable coscore : G -> X -> Z.
 
-Lemma get_scores_ok k g xs : length xs <> 1%nat ->
-  fit_get_scores X G score coscore k g xs = Ok (map (score g) xs).
-Proof.
-  intros H. destruct k; cbn [fit_get_scores]; [reflexivity| |];
-    destruct xs as [|x [|y r]]; try reflexivity; simpl in H; lia.
-Qed.
+Lemma get_scores_ok k g xs : fit_get_scores X G score k g xs = Ok (map (score g) xs).
+Proof. destruct k; reflexivity. Qed.
 
 (* the rows handed to estimator.fit when the table order is [ord] and the labels are [L] *)
 Definition handed (ord : list nat) (xs : list X) (L : list Z) : list (X * bool) :=
@@ -353,16 +348,16 @@ Lemma ord_of_perm sigma shuffle n : Permutation sigma (seq 0 n) -> Permutation (
 Proof. intros H. destruct shuffle; [exact H|reflexivity]. Qed.
 
 Lemma loop_ref iters : forall k sigma xs targets thr L last,
-  Permutation sigma (seq 0 (length xs)) -> length L = length xs -> length xs <> 1%nat ->
-  fit_loop X G learn score coscore iters k (sel sigma xs) sigma (fit_argsort sigma) targets thr (sel sigma L) last
+  Permutation sigma (seq 0 (length xs)) -> length L = length xs ->
+  fit_loop X G learn score iters k (sel sigma xs) sigma (fit_argsort sigma) targets thr (sel sigma L) last
   = (let (Ls, r) := ref_loop iters sigma xs targets thr L last in (map (handed sigma xs) Ls, r)).
 Proof.
-  induction iters as [|it IH]; intros k sigma xs targets thr L last Hp HL Hn; [reflexivity|].
+  induction iters as [|it IH]; intros k sigma xs targets thr L last Hp HL; [reflexivity|].
   pose proof (perm_in_range _ _ Hp) as Hr. pose proof (perm_length _ _ Hp) as Hpl.
   cbn [fit_loop ref_loop]. fold (handed sigma xs L).
   set (g := learn (handed sigma xs L)).
   unfold fit_step.
-  rewrite get_scores_ok by (rewrite sel_length by exact Hr; lia).
+  rewrite get_scores_ok.
   rewrite <- sel_map.
   rewrite gather_sel
     by (rewrite sel_length by (rewrite map_length; exact Hr); rewrite Hpl; apply argsort_in_range; exact Hp).
@@ -373,24 +368,24 @@ Proof.
   rewrite gather_sel by (rewrite Hll; exact Hr).
   rewrite count1_sel by (rewrite Hll; exact Hp).
   destruct (fit_count1 labs =? 0); [reflexivity|].
-  rewrite (IH k sigma xs targets thr labs _ Hp Hll Hn).
+  rewrite (IH k sigma xs targets thr labs _ Hp Hll).
   destruct (ref_loop it sigma xs targets thr labs (Some (g, fit_count1 labs))) as [t r]. reflexivity.
 Qed.
 
 Theorem train_ref k xs targets start fp sigma shuffle thr mi ov :
-  Permutation sigma (seq 0 (length xs)) -> length start = length xs -> length xs <> 1%nat ->
-  fit_train X G learn score coscore k xs targets start fp sigma shuffle thr mi ov
+  Permutation sigma (seq 0 (length xs)) -> length start = length xs ->
+  fit_train X G learn score k xs targets start fp sigma shuffle thr mi ov
   = (let ord := ord_of sigma shuffle (length xs) in
      let (Ls, r) := ref_loop mi ord xs targets thr start None in
      (map (handed ord xs) Ls, ref_final start fp ov r)).
 Proof.
-  intros Hp HL Hn. unfold fit_train. cbv zeta.
+  intros Hp HL. unfold fit_train. cbv zeta.
   assert (forall ord, Permutation ord (seq 0 (length xs)) ->
-            fit_train_core X G learn score coscore k (sel ord xs) (sel ord start) ord targets fp thr mi ov
+            fit_train_core X G learn score k (sel ord xs) (sel ord start) ord targets fp thr mi ov
             = (let (Ls, r) := ref_loop mi ord xs targets thr start None in
                (map (handed ord xs) Ls, ref_final start fp ov r))) as Core.
   { intros ord Ho. unfold fit_train_core.
-    rewrite (loop_ref mi k ord xs targets thr start None Ho HL Hn).
+    rewrite (loop_ref mi k ord xs targets thr start None Ho HL).
     destruct (ref_loop mi ord xs targets thr start None) as [Ls r].
     rewrite count1_sel by (rewrite HL; exact Ho). reflexivity. }
   destruct shuffle; cbn [ord_of].
@@ -437,8 +432,8 @@ Qed.
 
 (* ---------- C12_aligned ---------- *)
 Theorem fit_aligned k xs targets start fp sigma shuffle thr mi ov trace res :
-  length start = length xs -> length xs <> 1%nat -> Permutation sigma (seq 0 (length xs)) ->
-  fit_train X G learn score coscore k xs targets start fp sigma shuffle thr mi ov = (trace, res) ->
+  length start = length xs -> Permutation sigma (seq 0 (length xs)) ->
+  fit_train X G learn score k xs targets start fp sigma shuffle thr mi ov = (trace, res) ->
   exists Ls : list (list Z),
     length Ls = length trace /\
     (forall L, nth_error Ls 0 = Some L -> L = start) /\
@@ -448,7 +443,7 @@ Theorem fit_aligned k xs targets start fp sigma shuffle thr mi ov trace res :
       forall L', nth_error Ls (S i) = Some L' ->
         labels_ok true (map (score (learn tr)) xs) targets thr L'.
 Proof.
-  intros HL Hn Hp H. rewrite (train_ref _ _ _ _ _ _ _ _ _ _ Hp HL Hn) in H. cbv zeta in H.
+  intros HL Hp H. rewrite (train_ref _ _ _ _ _ _ _ _ _ _ Hp HL) in H. cbv zeta in H.
   fold (ord_of sigma shuffle (length xs)).
   set (ord := ord_of sigma shuffle (length xs)) in *.
   pose proof (ord_of_perm sigma shuffle _ Hp) as Ho. fold ord in Ho.
@@ -523,15 +518,15 @@ Qed.
 
 (* C12_order_invariant on the generic loop: rows permuted by [pi], any two shuffles, shuffle on or off *)
 Theorem fit_order_invariant k xs targets start fp pi sigma1 sh1 sigma2 sh2 thr mi ov :
-  length start = length xs -> length targets = length xs -> length xs <> 1%nat ->
+  length start = length xs -> length targets = length xs ->
   Permutation pi (seq 0 (length xs)) ->
   Permutation sigma1 (seq 0 (length xs)) -> Permutation sigma2 (seq 0 (length xs)) ->
   forall tr1 r1 tr2 r2,
-  fit_train X G learn score coscore k (sel pi xs) (sel pi targets) (sel pi start) fp sigma1 sh1 thr mi ov = (tr1, r1) ->
-  fit_train X G learn score coscore k xs targets start fp sigma2 sh2 thr mi ov = (tr2, r2) ->
+  fit_train X G learn score k (sel pi xs) (sel pi targets) (sel pi start) fp sigma1 sh1 thr mi ov = (tr1, r1) ->
+  fit_train X G learn score k xs targets start fp sigma2 sh2 thr mi ov = (tr2, r2) ->
   r1 = r2 /\ Forall2 (@Permutation (X * bool)) tr1 tr2.
 Proof.
-  intros HL HT Hn Hp H1 H2 tr1 r1 tr2 r2 E1 E2.
+  intros HL HT Hp H1 H2 tr1 r1 tr2 r2 E1 E2.
   pose proof (perm_in_range _ _ Hp) as Hr. pose proof (perm_length _ _ Hp) as Hpl.
   assert (length (sel pi xs) = length xs) as Lx by (rewrite sel_length by exact Hr; exact Hpl).
   assert (length (sel pi start) = length xs) as Ls0 by (rewrite sel_length by (rewrite HL; exact Hr); exact Hpl).
@@ -694,14 +689,13 @@ End ByName.
 Section Decision.
 Variable G : Type.
 Variable score : G -> list Z -> Z.
-Variable coscore : G -> list Z -> Z.
 
 (* C12_by_name: the table may present its feature columns in any order *)
 Theorem decision_by_name trained stored k g names cols names' cols' n :
   NoDup names -> length names = length cols -> length names' = length cols' ->
   Permutation (combine names cols) (combine names' cols') ->
-  fit_decision G score coscore trained stored k g names' cols' n
-  = fit_decision G score coscore trained stored k g names cols n.
+  fit_decision G score trained stored k g names' cols' n
+  = fit_decision G score trained stored k g names cols n.
 Proof.
   intros Hnd Hl Hl' Hp. unfold fit_decision.
   destruct (byname_subset names names' cols cols' Hl Hl' Hp stored) as [-> ->].
@@ -711,7 +705,7 @@ Qed.
 (* a table with another set of feature names is rejected *)
 Theorem decision_wrong_set stored k g names cols n :
   (exists x, (In x names /\ ~ In x stored) \/ (In x stored /\ ~ In x names)) ->
-  fit_decision G score coscore true stored k g names cols n = Err EValue.
+  fit_decision G score true stored k g names cols n = Err EValue.
 Proof.
   intros (x & H). unfold fit_decision. cbn [negb].
   assert (fit_subset names stored && fit_subset stored names = false) as ->; [|reflexivity].
@@ -742,9 +736,9 @@ Theorem decision_selects stored k g names cols n :
   NoDup names -> length names = length cols ->
   (forall s, In s stored <-> In s names) ->
   exists selc, Forall2 (fun s c => In (s, c) (combine names cols)) stored selc /\
-    fit_decision G score coscore true stored k g names cols n
+    fit_decision G score true stored k g names cols n
     = match fit_rows selc n with
-      | Ok rows => fit_get_scores (list Z) G score coscore k g rows
+      | Ok rows => fit_get_scores (list Z) G score k g rows
       | Err e => Err e
       end.
 Proof.
@@ -959,17 +953,16 @@ Section Table.
 Variable G : Type.
 Variable learn : list (list Z * bool) -> G.
 Variable score : G -> list Z -> Z.
-Variable coscore : G -> list Z -> Z.
 
 Lemma starting_sel n pi k st names cols rows targets thr :
-  Permutation pi (seq 0 n) -> table_wf n cols -> length targets = n -> length rows = n -> n <> 0%nat ->
-  fit_starting G score coscore k st names (map (sel pi) cols) (sel pi rows) (sel pi targets) thr
-  = match fit_starting G score coscore k st names cols rows targets thr with
+  Permutation pi (seq 0 n) -> table_wf n cols -> length targets = n -> length rows = n ->
+  fit_starting G score k st names (map (sel pi) cols) (sel pi rows) (sel pi targets) thr
+  = match fit_starting G score k st names cols rows targets thr with
     | Ok (l, c, d, b) => Ok (sel pi l, c, d, b)
     | Err e => Err e
     end.
 Proof.
-  intros Hp Hwf HT HR Hn0. unfold fit_starting.
+  intros Hp Hwf HT HR. unfold fit_starting.
   assert (forall l, length l = n -> fit_count1 (sel pi l) = fit_count1 l) as Hcnt.
   { intros l Hl. apply count1_sel. rewrite Hl. exact Hp. }
   destruct st as [|name|g0].
@@ -1007,33 +1000,16 @@ Proof.
       destruct (_ <=? _); injection Ed as <- _ _;
         [rewrite (update_labels_length_t _ _ _ _ _ E1)|rewrite (update_labels_length_t _ _ _ _ _ E2)]; exact HT. }
     rewrite (Hcnt l Hl). destruct (fit_count1 l =? 0); reflexivity.
-  - assert (match k with FitProba2 => False | _ => True end ->
-            fit_pre_scores G score coscore k g0 (sel pi rows) = sel pi (map (score g0) rows)
-            /\ fit_pre_scores G score coscore k g0 rows = map (score g0) rows) as Hmap.
-    { intros Hk. destruct k; try contradiction; cbn [fit_pre_scores]; rewrite sel_map; split; reflexivity. }
-    destruct k.
-    1,3: destruct (Hmap I) as [-> ->];
-         rewrite update_labels_sel by (rewrite map_length, ?HR; assumption);
-         destruct (update_labels true (map (score g0) rows) targets thr) as [l|e] eqn:E; [|reflexivity];
-         rewrite (Hcnt l) by (rewrite (update_labels_length_t _ _ _ _ _ E); exact HT);
-         destruct (fit_count1 l =? 0); reflexivity.
-    (* two-column predict_proba flattened: twice as many scores as rows, rejected either way *)
-    assert (forall rs tg, length rs = n -> length tg = n ->
-              update_labels true (fit_pre_scores G score coscore FitProba2 g0 rs) tg thr = Err EValue) as Bad.
-    { intros rs tg Hrs Htg. unfold update_labels.
-      assert (length (fit_pre_scores G score coscore FitProba2 g0 rs) = (2 * n)%nat) as ->.
-      { cbn [fit_pre_scores]. rewrite <- Hrs. clear. induction rs as [|x rs IH]; [reflexivity|].
-        cbn [flat_map app length]. rewrite IH. lia. }
-      rewrite Htg. destruct (Nat.eqb_spec (2 * n) n); [lia|reflexivity]. }
-    pose proof (perm_in_range _ _ Hp) as Hr. pose proof (perm_length _ _ Hp) as Hpl.
-    rewrite (Bad (sel pi rows) (sel pi targets))
-      by (rewrite sel_length by (rewrite ?HR, ?HT; exact Hr); exact Hpl).
-    rewrite (Bad rows targets HR HT). reflexivity.
+  - unfold fit_pre_scores. rewrite !(get_scores_ok (list Z) G score). rewrite <- sel_map.
+    rewrite update_labels_sel by (rewrite map_length, ?HR; assumption).
+    destruct (update_labels true (map (score g0) rows) targets thr) as [l|e] eqn:E; [|reflexivity].
+    rewrite (Hcnt l) by (rewrite (update_labels_length_t _ _ _ _ _ E); exact HT).
+    destruct (fit_count1 l =? 0); reflexivity.
 Qed.
 
 (* where the starting labels come from: the label rule applied to some score vector *)
 Lemma starting_spec k st names cols rows targets thr l c d b :
-  fit_starting G score coscore k st names cols rows targets thr = Ok (l, c, d, b) ->
+  fit_starting G score k st names cols rows targets thr = Ok (l, c, d, b) ->
   (exists desc sc, update_labels desc sc targets thr = Ok l) /\ fit_count1 l <> 0.
 Proof.
   unfold fit_starting. intros H.
@@ -1064,8 +1040,9 @@ Proof.
     destruct (update_labels true col targets thr) as [dl|] eqn:E1; [|discriminate].
     destruct (update_labels false col targets thr) as [al|] eqn:E2; [|discriminate].
     destruct (_ <=? _); injection Ed as <- _ _; [exists true, col|exists false, col]; assumption.
-  - destruct (update_labels true (fit_pre_scores G score coscore k g0 rows) targets thr) as [l1|] eqn:E; [|discriminate].
-    injection ES as -> _ _ _. exists true, (fit_pre_scores G score coscore k g0 rows). exact E.
+  - destruct (fit_pre_scores G score k g0 rows) as [sc|]; [|discriminate].
+    destruct (update_labels true sc targets thr) as [l1|] eqn:E; [|discriminate].
+    injection ES as -> _ _ _. exists true, sc. exact E.
 Qed.
 End Table.
 
@@ -1074,12 +1051,11 @@ Section Fit.
 Variable G : Type.
 Variable learn : list (list Z * bool) -> G.
 Variable score : G -> list Z -> Z.
-Variable coscore : G -> list Z -> Z.
 
 (* C12_aligned for Model.fit *)
 Theorem fit_fit_aligned k st names cols targets sigma shuffle thr mi ov trace res :
   Permutation sigma (seq 0 (length targets)) ->
-  fit_fit G learn score coscore true k st names cols targets sigma shuffle thr mi ov = (trace, res) ->
+  fit_fit G learn score true k st names cols targets sigma shuffle thr mi ov = (trace, res) ->
   trace = [] \/
   exists rows Ls,
     fit_rows cols (length targets) = Ok rows /\ length Ls = length trace /\
@@ -1093,18 +1069,17 @@ Proof.
   intros Hp H. unfold fit_fit in H.
   destruct (existsb (fun t => t) targets) eqn:ET; cbn [negb] in H; [|injection H as <- _; left; reflexivity].
   destruct (existsb negb targets) eqn:ED; cbn [negb] in H; [|injection H as <- _; left; reflexivity].
-  pose proof (both_classes targets ET ED) as Hn.
   destruct (fit_rows cols (length targets)) as [rows|e] eqn:ER; [|injection H as <- _; left; reflexivity].
   pose proof (rows_length _ _ _ ER) as HR.
-  destruct (fit_starting G score coscore k st names cols rows targets thr) as [[[[start fp] d] b]|e] eqn:ES;
+  destruct (fit_starting G score k st names cols rows targets thr) as [[[[start fp] d] b]|e] eqn:ES;
     [|injection H as <- _; left; reflexivity].
-  destruct (starting_spec _ _ _ _ _ _ _ _ _ _ _ _ _ _ ES) as [(desc & sc & EU) _].
+  destruct (starting_spec _ _ _ _ _ _ _ _ _ _ _ _ _ ES) as [(desc & sc & EU) _].
   assert (length start = length rows) as HL by (rewrite (update_labels_length_t _ _ _ _ _ EU), HR; reflexivity).
-  destruct (fit_train (list Z) G learn score coscore k rows targets start fp sigma shuffle thr mi ov)
+  destruct (fit_train (list Z) G learn score k rows targets start fp sigma shuffle thr mi ov)
     as [tr r] eqn:EF.
   injection H as <- _. right.
-  rewrite <- HR in Hp, Hn.
-  destruct (fit_aligned _ _ learn score coscore _ _ _ _ _ _ _ _ _ _ _ _ HL Hn Hp EF) as (Ls & Hlen & H0 & HS).
+  rewrite <- HR in Hp.
+  destruct (fit_aligned _ _ learn score _ _ _ _ _ _ _ _ _ _ _ _ HL Hp EF) as (Ls & Hlen & H0 & HS).
   exists rows, Ls. split; [reflexivity|]. split; [exact Hlen|]. split.
   - intros L EL. rewrite (H0 L EL). exists desc, sc. apply update_labels_ok. exact EU.
   - intros i L tr0 EL Etr. destruct (HS i L tr0 EL Etr) as (A & B & C). rewrite HR in A, B.
@@ -1119,8 +1094,8 @@ Theorem fit_fit_order_invariant :
   Permutation pi (seq 0 (length targets)) ->
   Permutation sigma1 (seq 0 (length targets)) -> Permutation sigma2 (seq 0 (length targets)) ->
   forall tr1 r1 tr2 r2,
-  fit_fit G learn score coscore true k st names (map (sel pi) cols) (sel pi targets) sigma1 sh1 thr mi ov = (tr1, r1) ->
-  fit_fit G learn score coscore true k st names cols targets sigma2 sh2 thr mi ov = (tr2, r2) ->
+  fit_fit G learn score true k st names (map (sel pi) cols) (sel pi targets) sigma1 sh1 thr mi ov = (tr1, r1) ->
+  fit_fit G learn score true k st names cols targets sigma2 sh2 thr mi ov = (tr2, r2) ->
   r1 = r2 /\ Forall2 (@Permutation (list Z * bool)) tr1 tr2.
 Proof.
   intros Hinv k st names cols targets pi sigma1 sh1 sigma2 sh2 thr mi ov Hwf Hp H1 H2 tr1 r1 tr2 r2 E1 E2.
@@ -1132,24 +1107,22 @@ Proof.
     [|injection E1 as <- <-; injection E2 as <- <-; split; [reflexivity|constructor]].
   destruct (existsb negb targets) eqn:ED; cbn [negb] in E1, E2;
     [|injection E1 as <- <-; injection E2 as <- <-; split; [reflexivity|constructor]].
-  pose proof (both_classes targets ET ED) as Hn.
   rewrite (rows_sel _ _ _ Hp Hwf) in E1. rewrite (rows_wf _ _ Hwf) in E2.
   set (rows := map (row_of cols) (seq 0 (length targets))) in *.
   assert (length rows = length targets) as HR by (unfold rows; rewrite map_length, seq_length; reflexivity).
-  assert (length targets <> 0%nat) as Hn0 by (destruct targets; [discriminate|simpl; lia]).
-  rewrite (starting_sel G score coscore _ pi k st names cols rows targets thr Hp Hwf eq_refl HR Hn0) in E1.
-  destruct (fit_starting G score coscore k st names cols rows targets thr) as [[[[start fp] d] b]|e] eqn:ES;
+  rewrite (starting_sel G score _ pi k st names cols rows targets thr Hp Hwf eq_refl HR) in E1.
+  destruct (fit_starting G score k st names cols rows targets thr) as [[[[start fp] d] b]|e] eqn:ES;
     [|injection E1 as <- <-; injection E2 as <- <-; split; [reflexivity|constructor]].
-  destruct (starting_spec _ _ _ _ _ _ _ _ _ _ _ _ _ _ ES) as [(desc & sc & EU) _].
+  destruct (starting_spec _ _ _ _ _ _ _ _ _ _ _ _ _ ES) as [(desc & sc & EU) _].
   assert (length start = length rows) as HL by (rewrite (update_labels_length_t _ _ _ _ _ EU), HR; reflexivity).
-  destruct (fit_train (list Z) G learn score coscore k (sel pi rows) (sel pi targets) (sel pi start) fp sigma1 sh1 thr mi ov)
+  destruct (fit_train (list Z) G learn score k (sel pi rows) (sel pi targets) (sel pi start) fp sigma1 sh1 thr mi ov)
     as [t1 g1] eqn:F1.
-  destruct (fit_train (list Z) G learn score coscore k rows targets start fp sigma2 sh2 thr mi ov)
+  destruct (fit_train (list Z) G learn score k rows targets start fp sigma2 sh2 thr mi ov)
     as [t2 g2] eqn:F2.
   injection E1 as <- <-. injection E2 as <- <-.
-  rewrite <- HR in Hp, H1, H2, Hn.
-  destruct (fit_order_invariant _ _ learn score coscore Hinv k rows targets start fp pi sigma1 sh1 sigma2 sh2 thr mi ov
-              HL (eq_sym HR) Hn Hp H1 H2 _ _ _ _ F1 F2) as [-> HF].
+  rewrite <- HR in Hp, H1, H2.
+  destruct (fit_order_invariant _ _ learn score Hinv k rows targets start fp pi sigma1 sh1 sigma2 sh2 thr mi ov
+              HL (eq_sym HR) Hp H1 H2 _ _ _ _ F1 F2) as [-> HF].
   split; [reflexivity|exact HF].
 Qed.
 End Fit.
@@ -1161,7 +1134,7 @@ End Fit.
 Definition cx_scores : list Z := [10; 9; 1; 0].
 Definition cx_run (patched : bool) :=
   (if patched then fit_train else fit_train_unpatched)
-    nat unit (fun _ => tt) (fun _ r => nth r cx_scores 0) (fun _ _ => 0)
+    nat unit (fun _ => tt) (fun _ r => nth r cx_scores 0)
     FitDF [0; 1; 2; 3]%nat [true; true; true; false] [1; 1; 1; -1] 3 [0; 1; 3; 2]%nat false (1 # 2) 2%nat true.
 
 Lemma unshuffled_refuted :
@@ -1177,20 +1150,20 @@ Lemma patched_not_refuted :
 Proof. vm_compute. reflexivity. Qed.
 
 (* ====================== order invariance stated for arbitrary reorderings of the rows ====================== *)
-Theorem fit_order_invariant_perm (X G : Type) (learn : list (X * bool) -> G) (score coscore : G -> X -> Z) :
+Theorem fit_order_invariant_perm (X G : Type) (learn : list (X * bool) -> G) (score : G -> X -> Z) :
   (forall l l', Permutation l l' -> learn l = learn l') ->
   forall k xs targets start xs' targets' start' fp sigma1 sh1 sigma2 sh2 thr mi ov,
   length targets = length xs -> length start = length xs ->
-  length targets' = length xs' -> length start' = length xs' -> length xs <> 1%nat ->
+  length targets' = length xs' -> length start' = length xs' ->
   Permutation (combine xs' (combine targets' start')) (combine xs (combine targets start)) ->
   Permutation sigma1 (seq 0 (length xs)) -> Permutation sigma2 (seq 0 (length xs)) ->
   forall tr1 r1 tr2 r2,
-  fit_train X G learn score coscore k xs' targets' start' fp sigma1 sh1 thr mi ov = (tr1, r1) ->
-  fit_train X G learn score coscore k xs targets start fp sigma2 sh2 thr mi ov = (tr2, r2) ->
+  fit_train X G learn score k xs' targets' start' fp sigma1 sh1 thr mi ov = (tr1, r1) ->
+  fit_train X G learn score k xs targets start fp sigma2 sh2 thr mi ov = (tr2, r2) ->
   r1 = r2 /\ Forall2 (@Permutation (X * bool)) tr1 tr2.
 Proof.
   intros Hinv k xs targets start xs' targets' start' fp sigma1 sh1 sigma2 sh2 thr mi ov
-         HT HL HT' HL' Hn HP H1 H2 tr1 r1 tr2 r2 E1 E2.
+         HT HL HT' HL' HP H1 H2 tr1 r1 tr2 r2 E1 E2.
   destruct (perm_sel _ _ HP) as (pi & Hp & E).
   assert (length (combine xs (combine targets start)) = length xs) as Lc
     by (rewrite !combine_length, HT, HL, !Nat.min_id; reflexivity).
@@ -1206,8 +1179,8 @@ Proof.
   destruct E as [-> E].
   apply combine_inj in E; [|rewrite HT', HL'; reflexivity|rewrite !Ls by (first [assumption|reflexivity]); reflexivity].
   destruct E as [-> ->].
-  exact (fit_order_invariant X G learn score coscore Hinv k xs targets start fp pi sigma1 sh1 sigma2 sh2 thr mi ov
-           HL HT Hn Hp H1 H2 _ _ _ _ E1 E2).
+  exact (fit_order_invariant X G learn score Hinv k xs targets start fp pi sigma1 sh1 sigma2 sh2 thr mi ov
+           HL HT Hp H1 H2 _ _ _ _ E1 E2).
 Qed.
 
 (* ====================== reading handed_ok ====================== *)
@@ -1242,13 +1215,23 @@ Proof.
 Qed.
 
 (* predictions follow the rows *)
-Lemma get_scores_sel X G (score coscore : G -> X -> Z) k g pi xs :
-  length xs <> 1%nat -> Permutation pi (seq 0 (length xs)) ->
-  fit_get_scores X G score coscore k g (sel pi xs)
-  = match fit_get_scores X G score coscore k g xs with Ok s => Ok (sel pi s) | Err e => Err e end.
+Lemma get_scores_sel X G (score : G -> X -> Z) k g pi xs :
+  fit_get_scores X G score k g (sel pi xs)
+  = match fit_get_scores X G score k g xs with Ok s => Ok (sel pi s) | Err e => Err e end.
+Proof. rewrite !get_scores_ok, sel_map. reflexivity. Qed.
+
+(* before F16: the flattened two-column predict_proba has twice as many entries as there are rows, so
+   re-fitting a trained model with such an estimator is always rejected *)
+Lemma pre_proba2_unpatched_rejected G (score coscore : G -> list Z -> Z) g0 rows targets thr :
+  rows <> [] -> length targets = length rows ->
+  update_labels true (fit_pre_scores_unpatched G score coscore FitProba2 g0 rows) targets thr = Err EValue.
 Proof.
-  intros Hn Hp. rewrite !get_scores_ok; [rewrite sel_map; reflexivity|exact Hn|].
-  rewrite sel_length by (apply perm_in_range; exact Hp). rewrite (perm_length _ _ Hp). exact Hn.
+  intros Hne HT. unfold update_labels.
+  assert (length (fit_pre_scores_unpatched G score coscore FitProba2 g0 rows) = (2 * length rows)%nat) as ->.
+  { cbn [fit_pre_scores_unpatched]. clear. induction rows as [|x rs IH]; [reflexivity|].
+    cbn [flat_map app length]. rewrite IH. lia. }
+  rewrite HT. destruct (Nat.eqb_spec (2 * length rows) (length rows)) as [E|]; [|reflexivity].
+  destruct rows; [contradiction|simpl in E; lia].
 Qed.
 
 (* the order-independent recording estimator of the harness is order-independent *)
